@@ -23,7 +23,9 @@ DW_FILES = ["a1.out", "twocus", "nullptr.o", "bitcount.o", "y.o", "y-mips.o",
             # and ranges of optimised code, inlined subroutines, templates, member pointers, macros
             "k1.o", "k2.o", "k1-g3.o",
             # ar archives (several Dwfl modules behind one handle): three members with DWARF; one with, one without
-            "three.a", "two.a"]
+            "three.a", "two.a",
+            # assembled by a seeding sub-agent (source alongside): location lists with base address selection entries
+            "loclists.o"]
 # Files that carry a .gnu_debugaltlink (alt file name in the same directory).
 ALT_OF = {"a1.out": "a-common.out", "dwz-partial2-1": "dwz-partial2-C",
           "dwz-partial3-1": "dwz-partial3-C", "dwz-partial4-1.o": "dwz-partial4-C"}
